@@ -197,6 +197,10 @@ func runC05(w *fw.Worker) {
 
 		nPhases := r.Range(2, 5)
 		prev := -1
+		inPlace := map[int]bool{}
+		for s := 0; s < o.NSrc; s++ {
+			inPlace[s] = r.Chance(30)
+		}
 	phases:
 		for ph := 0; ph < nPhases; ph++ {
 			if r.Chance(60) {
@@ -218,7 +222,15 @@ func runC05(w *fw.Worker) {
 					}
 					lastSetBySrc[s] = l.Set
 					srcsUsed[s] = true
-					res, err := e.Report(ctx, 0, s, l, true)
+					var res int
+					var err error
+					if inPlace[s] && !l.IllTyped {
+						// this watcher keeps one value object, rewrites it and reports the same pointer again
+						res, err = e.ReportInPlace(ctx, 0, s, l)
+						w.Count("reports_of_one_rewritten_value_object", 1)
+					} else {
+						res, err = e.Report(ctx, 0, s, l, true)
+					}
 					ns := e.Model.Step(st, conc.In{Kind: conc.OpReport, Src: s, Layer: l, Blocking: true}, conc.Out{Res: res})
 					trace = append(trace, fmt.Sprintf("src=%d %s -> %d", s, l, res))
 					if len(trace) > 10 {
